@@ -327,6 +327,63 @@ def run(loader, R, tier):
                             fmt(Counter(dict(major_sig)))))
     R.floor("function classes with at least two evaluator handlers", multi, 35)
 
+    # number leaves: every evaluator converts an exact leaf to double the
+    # same way (one mp_get_d of the whole value; a division of two separately
+    # converted parts overflows to inf/inf for huge numerator/denominator)
+    nleaf = 0
+    for cname in ("Integer", "Rational"):
+        X = "SymEngine::" + cname
+        conv = {}
+        for v in EVAL_VISITORS:
+            h = V.handlers(v).get(X)
+            f = prog.functions.get(h) if h else None
+            if f is None or not f.get("params") \
+                    or strip_type(f["params"][0]["t"]) != X:
+                continue
+            c = Counter()
+            for n in walk(f["body"]):
+                if n.get("k") == "call" and n.get("n") == "mp_get_d":
+                    c["mp_get_d"] += 1
+                if n.get("k") in ("bin", "op") and n.get("op") == "/" \
+                        and len(n.get("a", ())) == 2:
+                    c["division"] += 1
+            conv[short(v)] = (c, prog.loc(f))
+        tf_slots = {e: val for _a, e, val, _l in enum_index_assignments(tf)}
+        lam = tf_slots.get("SYMENGINE_" + cname.upper())
+        if lam is not None:
+            c = Counter()
+            for n in walk(lam):
+                if n.get("k") == "call" and n.get("n") == "mp_get_d":
+                    c["mp_get_d"] += 1
+                if n.get("k") in ("bin", "op") and n.get("op") == "/" \
+                        and len(n.get("a", ())) == 2:
+                    c["division"] += 1
+            conv["init_eval_double"] = (c, prog.loc(tf))
+        if len(conv) < 2:
+            continue
+        nleaf += 1
+        groups = {}
+        for ev, (c, where) in conv.items():
+            groups.setdefault(tuple(sorted(c.items())), []).append(
+                (ev, where))
+        R.instance("R12.1", "leaf:" + cname, sample={
+            "class": cname, "conversion": {ev: dict(c)
+                                           for ev, (c, _w) in conv.items()}})
+        if len(groups) > 1:
+            ordered = sorted(groups.items(), key=lambda kv: -len(kv[1]))
+            for sg, members in ordered[1:]:
+                for ev, where in members:
+                    R.violation(
+                        "R12.1", "leaf:%s:%s" % (cname, ev), where,
+                        "%s converts a %s leaf with {%s} while %s use {%s}: "
+                        "the evaluators disagree on how an exact number "
+                        "becomes a double (converting numerator and "
+                        "denominator separately gives inf/inf for huge "
+                        "parts)" % (ev, cname, fmt(Counter(dict(sg))),
+                                    ", ".join(e for e, _ in ordered[0][1]),
+                                    fmt(Counter(dict(ordered[0][0])))))
+    R.floor("exact leaf classes compared across evaluators", nleaf, 2)
+
     # relationals: the comparison operator is the formula
     RELDEF = {"Equality": "==", "Unequality": "!=", "LessThan": "<=",
               "StrictLessThan": "<"}
